@@ -2,4 +2,1120 @@ import TT.Model.Metrics
 import TT.Lemmas.UdpFlows
 namespace TT.Metrics
 
+/-! ### generic list facts -/
+
+theorem sum_map_set {α : Type} (f : α → Nat) (l : List α) (i : Nat) (a d : α) (h : i < l.length) :
+    ((l.set i a).map f).sum + f (l.getD i d) = (l.map f).sum + f a := by
+  induction l generalizing i with
+  | nil => simp at h
+  | cons x xs ih =>
+    cases i with
+    | zero => simp; omega
+    | succ i =>
+      have := ih i (by simpa using h)
+      simp only [List.set_cons_succ, List.map_cons, List.sum_cons, List.getD_cons_succ] at this ⊢
+      omega
+
+theorem getD_ge {α : Type} (l : List α) (d : α) {i : Nat} (h : l.length ≤ i) : l.getD i d = d := by
+  simp [List.getD_eq_getElem?_getD, List.getElem?_eq_none h]
+
+theorem getD_set_self {α : Type} (l : List α) (a d : α) {i : Nat} (h : i < l.length) :
+    (l.set i a).getD i d = a := by
+  simp [List.getD_eq_getElem?_getD, h]
+
+theorem getD_set_ne {α : Type} (l : List α) (a d : α) {i j : Nat} (h : j ≠ i) :
+    (l.set i a).getD j d = l.getD j d := by
+  simp [List.getD_eq_getElem?_getD, List.getElem?_set_ne (Ne.symm h)]
+
+/-- fold over `range n` where step `t` establishes `R t` and no step destroys an `R j` -/
+theorem foldl_range_all {σ : Type} (f : σ → Nat → σ) (P : σ → Prop) (R : Nat → σ → Prop) (N : Nat)
+    (hP : ∀ s t, t < N → P s → P (f s t))
+    (h1 : ∀ s t j, t < N → P s → R j s → R j (f s t)) (h2 : ∀ s t, t < N → P s → R t (f s t))
+    (n : Nat) (hn : n ≤ N) (s : σ) (h : P s) :
+    P ((List.range n).foldl f s) ∧ ∀ j, j < n → R j ((List.range n).foldl f s) := by
+  induction n with
+  | zero => exact ⟨h, fun j hj => absurd hj (Nat.not_lt_zero j)⟩
+  | succ n ih =>
+    rw [List.range_succ, List.foldl_append]
+    simp only [List.foldl_cons, List.foldl_nil]
+    obtain ⟨p, r⟩ := ih (Nat.le_of_succ_le hn)
+    refine ⟨hP _ _ hn p, fun j hj => ?_⟩
+    by_cases hjn : j = n
+    · subst hjn; exact h2 _ _ hn p
+    · exact h1 _ _ _ hn p (r j (by omega))
+
+theorem foldl_inv {σ : Type} (P : σ → Prop) (Q : Nat → Prop) (f : σ → Nat → σ)
+    (hf : ∀ s t, Q t → P s → P (f s t)) (l : List Nat) (hl : ∀ t ∈ l, Q t) (s : σ) (h : P s) :
+    P (l.foldl f s) := by
+  induction l generalizing s with
+  | nil => exact h
+  | cons t ts ih =>
+    simp only [List.foldl_cons]
+    exact ih (fun t ht => hl t (List.mem_cons_of_mem _ ht)) _ (hf s t (hl t List.mem_cons_self) h)
+
+/-! ### the object counts as sums of weights -/
+
+def sessW (p : Proto) (x : Sess) : Nat := if (x.alive && x.proto == p) = true then 1 else 0
+def tcpW (t : Tun) : Nat := match t.st with | .connecting _ | .open _ _ => 1 | _ => 0
+def udpW (t : Tun) : Nat := match t.st with | .mux u => u.gauge | _ => 0
+
+@[simp] theorem tcpW_connecting (i n : Nat) : tcpW { sess := i, st := .connecting n } = 1 := rfl
+@[simp] theorem tcpW_open (i : Nat) (a b : Bool) : tcpW { sess := i, st := .open a b } = 1 := rfl
+@[simp] theorem tcpW_mux (i : Nat) (u) : tcpW { sess := i, st := .mux u } = 0 := rfl
+@[simp] theorem tcpW_closed (i : Nat) : tcpW { sess := i, st := .closed } = 0 := rfl
+@[simp] theorem udpW_connecting (i n : Nat) : udpW { sess := i, st := .connecting n } = 0 := rfl
+@[simp] theorem udpW_open (i : Nat) (a b : Bool) : udpW { sess := i, st := .open a b } = 0 := rfl
+@[simp] theorem udpW_mux (i : Nat) (u) : udpW { sess := i, st := .mux u } = u.gauge := rfl
+@[simp] theorem udpW_closed (i : Nat) : udpW { sess := i, st := .closed } = 0 := rfl
+
+theorem tcpW_of_connecting {t : Tun} {n} (h : t.st = .connecting n) : tcpW t = 1 := by simp [tcpW, h]
+theorem tcpW_of_open {t : Tun} {a b} (h : t.st = .open a b) : tcpW t = 1 := by simp [tcpW, h]
+theorem tcpW_of_mux {t : Tun} {u} (h : t.st = .mux u) : tcpW t = 0 := by simp [tcpW, h]
+theorem tcpW_of_closed {t : Tun} (h : t.st = .closed) : tcpW t = 0 := by simp [tcpW, h]
+theorem udpW_of_connecting {t : Tun} {n} (h : t.st = .connecting n) : udpW t = 0 := by simp [udpW, h]
+theorem udpW_of_open {t : Tun} {a b} (h : t.st = .open a b) : udpW t = 0 := by simp [udpW, h]
+theorem udpW_of_mux {t : Tun} {u} (h : t.st = .mux u) : udpW t = u.gauge := by simp [udpW, h]
+theorem udpW_of_closed {t : Tun} (h : t.st = .closed) : udpW t = 0 := by simp [udpW, h]
+
+theorem liveSessions_eq (s : St) (p : Proto) : liveSessions s p = (s.sess.map (sessW p)).sum := by
+  unfold liveSessions
+  induction s.sess with
+  | nil => rfl
+  | cons x xs ih =>
+    simp only [List.filter_cons, List.map_cons, List.sum_cons, sessW]
+    split <;> simp_all <;> omega
+
+theorem liveTcp_eq (s : St) : liveTcp s = (s.tuns.map tcpW).sum := by
+  unfold liveTcp
+  induction s.tuns with
+  | nil => rfl
+  | cons x xs ih =>
+    simp only [List.filter_cons, List.map_cons, List.sum_cons, tcpW]
+    split <;> split <;> simp_all <;> omega
+
+theorem liveUdp_eq (s : St) : liveUdp s = (s.tuns.map udpW).sum := rfl
+
+/-! ### projections of the cell updates -/
+
+@[simp] theorem Cells.sessInc_tcp (c : Cells) (p : Proto) : (c.sessInc p).tcp = c.tcp := by cases p <;> rfl
+@[simp] theorem Cells.sessInc_udp (c : Cells) (p : Proto) : (c.sessInc p).udp = c.udp := by cases p <;> rfl
+@[simp] theorem Cells.sessInc_up1 (c : Cells) (p : Proto) : (c.sessInc p).up1 = c.up1 := by cases p <;> rfl
+@[simp] theorem Cells.sessInc_up2 (c : Cells) (p : Proto) : (c.sessInc p).up2 = c.up2 := by cases p <;> rfl
+@[simp] theorem Cells.sessInc_dn1 (c : Cells) (p : Proto) : (c.sessInc p).dn1 = c.dn1 := by cases p <;> rfl
+@[simp] theorem Cells.sessInc_dn2 (c : Cells) (p : Proto) : (c.sessInc p).dn2 = c.dn2 := by cases p <;> rfl
+@[simp] theorem Cells.sessDec_tcp (c : Cells) (p : Proto) : (c.sessDec p).tcp = c.tcp := by cases p <;> rfl
+@[simp] theorem Cells.sessDec_udp (c : Cells) (p : Proto) : (c.sessDec p).udp = c.udp := by cases p <;> rfl
+@[simp] theorem Cells.sessDec_up1 (c : Cells) (p : Proto) : (c.sessDec p).up1 = c.up1 := by cases p <;> rfl
+@[simp] theorem Cells.sessDec_up2 (c : Cells) (p : Proto) : (c.sessDec p).up2 = c.up2 := by cases p <;> rfl
+@[simp] theorem Cells.sessDec_dn1 (c : Cells) (p : Proto) : (c.sessDec p).dn1 = c.dn1 := by cases p <;> rfl
+@[simp] theorem Cells.sessDec_dn2 (c : Cells) (p : Proto) : (c.sessDec p).dn2 = c.dn2 := by cases p <;> rfl
+@[simp] theorem Cells.tcpInc_s1 (c : Cells) : (c.tcpInc).s1 = c.s1 := rfl
+@[simp] theorem Cells.tcpInc_s2 (c : Cells) : (c.tcpInc).s2 = c.s2 := rfl
+@[simp] theorem Cells.tcpInc_udp (c : Cells) : (c.tcpInc).udp = c.udp := rfl
+@[simp] theorem Cells.tcpInc_up1 (c : Cells) : (c.tcpInc).up1 = c.up1 := rfl
+@[simp] theorem Cells.tcpInc_up2 (c : Cells) : (c.tcpInc).up2 = c.up2 := rfl
+@[simp] theorem Cells.tcpInc_dn1 (c : Cells) : (c.tcpInc).dn1 = c.dn1 := rfl
+@[simp] theorem Cells.tcpInc_dn2 (c : Cells) : (c.tcpInc).dn2 = c.dn2 := rfl
+@[simp] theorem Cells.tcpDec_s1 (c : Cells) : (c.tcpDec).s1 = c.s1 := rfl
+@[simp] theorem Cells.tcpDec_s2 (c : Cells) : (c.tcpDec).s2 = c.s2 := rfl
+@[simp] theorem Cells.tcpDec_udp (c : Cells) : (c.tcpDec).udp = c.udp := rfl
+@[simp] theorem Cells.tcpDec_up1 (c : Cells) : (c.tcpDec).up1 = c.up1 := rfl
+@[simp] theorem Cells.tcpDec_up2 (c : Cells) : (c.tcpDec).up2 = c.up2 := rfl
+@[simp] theorem Cells.tcpDec_dn1 (c : Cells) : (c.tcpDec).dn1 = c.dn1 := rfl
+@[simp] theorem Cells.tcpDec_dn2 (c : Cells) : (c.tcpDec).dn2 = c.dn2 := rfl
+@[simp] theorem Cells.addUp_s1 (c : Cells) (p : Proto) (n : Nat) : (c.addUp p n).s1 = c.s1 := by cases p <;> rfl
+@[simp] theorem Cells.addUp_s2 (c : Cells) (p : Proto) (n : Nat) : (c.addUp p n).s2 = c.s2 := by cases p <;> rfl
+@[simp] theorem Cells.addUp_tcp (c : Cells) (p : Proto) (n : Nat) : (c.addUp p n).tcp = c.tcp := by cases p <;> rfl
+@[simp] theorem Cells.addUp_udp (c : Cells) (p : Proto) (n : Nat) : (c.addUp p n).udp = c.udp := by cases p <;> rfl
+@[simp] theorem Cells.addUp_dn1 (c : Cells) (p : Proto) (n : Nat) : (c.addUp p n).dn1 = c.dn1 := by cases p <;> rfl
+@[simp] theorem Cells.addUp_dn2 (c : Cells) (p : Proto) (n : Nat) : (c.addUp p n).dn2 = c.dn2 := by cases p <;> rfl
+@[simp] theorem Cells.addDn_s1 (c : Cells) (p : Proto) (n : Nat) : (c.addDn p n).s1 = c.s1 := by cases p <;> rfl
+@[simp] theorem Cells.addDn_s2 (c : Cells) (p : Proto) (n : Nat) : (c.addDn p n).s2 = c.s2 := by cases p <;> rfl
+@[simp] theorem Cells.addDn_tcp (c : Cells) (p : Proto) (n : Nat) : (c.addDn p n).tcp = c.tcp := by cases p <;> rfl
+@[simp] theorem Cells.addDn_udp (c : Cells) (p : Proto) (n : Nat) : (c.addDn p n).udp = c.udp := by cases p <;> rfl
+@[simp] theorem Cells.addDn_up1 (c : Cells) (p : Proto) (n : Nat) : (c.addDn p n).up1 = c.up1 := by cases p <;> rfl
+@[simp] theorem Cells.addDn_up2 (c : Cells) (p : Proto) (n : Nat) : (c.addDn p n).up2 = c.up2 := by cases p <;> rfl
+@[simp] theorem Cells.udpDelta_s1 (c : Cells) (a b : UdpFlows.St) : (c.udpDelta a b).s1 = c.s1 := rfl
+@[simp] theorem Cells.udpDelta_s2 (c : Cells) (a b : UdpFlows.St) : (c.udpDelta a b).s2 = c.s2 := rfl
+@[simp] theorem Cells.udpDelta_tcp (c : Cells) (a b : UdpFlows.St) : (c.udpDelta a b).tcp = c.tcp := rfl
+@[simp] theorem Cells.udpDelta_up1 (c : Cells) (a b : UdpFlows.St) : (c.udpDelta a b).up1 = c.up1 := rfl
+@[simp] theorem Cells.udpDelta_up2 (c : Cells) (a b : UdpFlows.St) : (c.udpDelta a b).up2 = c.up2 := rfl
+@[simp] theorem Cells.udpDelta_dn1 (c : Cells) (a b : UdpFlows.St) : (c.udpDelta a b).dn1 = c.dn1 := rfl
+@[simp] theorem Cells.udpDelta_dn2 (c : Cells) (a b : UdpFlows.St) : (c.udpDelta a b).dn2 = c.dn2 := rfl
+@[simp] theorem Cells.tcpInc_tcp (c : Cells) : c.tcpInc.tcp = c.tcp + 1 := rfl
+@[simp] theorem Cells.tcpDec_tcp (c : Cells) : c.tcpDec.tcp = c.tcp - 1 := rfl
+@[simp] theorem Cells.udpDelta_udp (c : Cells) (a b : UdpFlows.St) :
+    (c.udpDelta a b).udp = c.udp + (b.gauge : Int) - (a.gauge : Int) := rfl
+theorem Cells.addUp_up1_le (c : Cells) (p : Proto) (n : Nat) : c.up1 ≤ (c.addUp p n).up1 := by
+  cases p <;> simp [Cells.addUp]
+theorem Cells.addUp_up2_le (c : Cells) (p : Proto) (n : Nat) : c.up2 ≤ (c.addUp p n).up2 := by
+  cases p <;> simp [Cells.addUp]
+theorem Cells.addDn_dn1_le (c : Cells) (p : Proto) (n : Nat) : c.dn1 ≤ (c.addDn p n).dn1 := by
+  cases p <;> simp [Cells.addDn]
+theorem Cells.addDn_dn2_le (c : Cells) (p : Proto) (n : Nat) : c.dn2 ≤ (c.addDn p n).dn2 := by
+  cases p <;> simp [Cells.addDn]
+
+/-! ### basic facts about the state accessors -/
+
+theorem default_tun_st : (default : Tun).st = .connecting 0 := rfl
+theorem default_sess_alive : (default : Sess).alive = false := rfl
+
+theorem aliveS_lt {s : St} {i : Nat} (h : aliveS s i = true) : i < s.sess.length := by
+  apply Classical.byContradiction
+  intro hn
+  unfold aliveS at h
+  rw [getD_ge _ _ (Nat.le_of_not_lt hn), default_sess_alive] at h
+  cases h
+
+theorem tun_lt_of_st_ne {s : St} {t : Nat} (h : (s.tuns.getD t default).st ≠ .connecting 0) :
+    t < s.tuns.length := by
+  apply Classical.byContradiction
+  intro hn
+  apply h
+  rw [getD_ge _ _ (Nat.le_of_not_lt hn)]; rfl
+
+theorem tun_lt_of_open {s : St} {t : Nat} {a b} (h : (s.tuns.getD t default).st = .open a b) :
+    t < s.tuns.length := tun_lt_of_st_ne (by rw [h]; simp)
+theorem tun_lt_of_mux {s : St} {t : Nat} {u} (h : (s.tuns.getD t default).st = .mux u) :
+    t < s.tuns.length := tun_lt_of_st_ne (by rw [h]; simp)
+theorem tun_lt_of_closed {s : St} {t : Nat} (h : (s.tuns.getD t default).st = .closed) :
+    t < s.tuns.length := tun_lt_of_st_ne (by rw [h]; simp)
+
+theorem aliveS_congr {s s' : St} (h : s'.sess = s.sess) (i : Nat) : aliveS s' i = aliveS s i := by
+  simp [aliveS, h]
+theorem protoOf_congr {s s' : St} (h : s'.sess = s.sess) (i : Nat) : protoOf s' i = protoOf s i := by
+  simp [protoOf, h]
+
+/-! ### `setTun` -/
+
+@[simp] theorem setTun_now (s : St) (t st) : (setTun s t st).now = s.now := rfl
+@[simp] theorem setTun_sess (s : St) (t st) : (setTun s t st).sess = s.sess := rfl
+@[simp] theorem setTun_cells (s : St) (t st) : (setTun s t st).cells = s.cells := rfl
+@[simp] theorem setTun_length (s : St) (t st) : (setTun s t st).tuns.length = s.tuns.length := by
+  simp [setTun]
+theorem setTun_getD_ne (s : St) (t st) {j : Nat} (h : j ≠ t) :
+    (setTun s t st).tuns.getD j default = s.tuns.getD j default := by
+  simp [setTun, List.getD_eq_getElem?_getD, List.getElem?_set_ne (Ne.symm h)]
+theorem setTun_getD_self (s : St) (t st) (h : t < s.tuns.length) :
+    (setTun s t st).tuns.getD t default = { (s.tuns.getD t default) with st := st } := by
+  simp [setTun, List.getD_eq_getElem?_getD, h]
+theorem setTun_getD_sess (s : St) (t st) (j : Nat) :
+    ((setTun s t st).tuns.getD j default).sess = (s.tuns.getD j default).sess := by
+  by_cases h : j = t
+  · subst h
+    by_cases hl : j < s.tuns.length
+    · rw [setTun_getD_self _ _ _ hl]
+    · have hl' := Nat.le_of_not_lt hl
+      rw [getD_ge _ _ hl', getD_ge _ _ (by simpa using hl')]
+  · rw [setTun_getD_ne _ _ _ h]
+
+theorem setTun_getD_self_ge (s : St) (t st) (h : s.tuns.length ≤ t) :
+    (setTun s t st).tuns.getD t default = s.tuns.getD t default := by
+  rw [getD_ge _ _ h, getD_ge _ _ (by simpa using h)]
+
+attribute [-simp] List.getD_eq_getElem?_getD
+
+/-! ### the common shape of the tunnel-local updates -/
+
+/-- tunnel `t` gets state `st`, the cells become `cells` -/
+def updTun (s : St) (t : Nat) (st : TunState) (cells : Cells) : St :=
+  { setTun s t st with cells := cells }
+
+theorem setTun_eq_upd (s : St) (t st) : setTun s t st = updTun s t st s.cells := rfl
+theorem stepMux_eq_upd (c : Cfg) (s : St) (t u op) :
+    stepMux c s t u op = updTun s t (.mux (UdpFlows.step c.udp u op).1)
+      (((s.cells.udpDelta u (UdpFlows.step c.udp u op).1).addUp (protoOf s (s.tuns.getD t default).sess)
+        ((UdpFlows.step c.udp u op).1.up - u.up)).addDn (protoOf s (s.tuns.getD t default).sess)
+        ((UdpFlows.step c.udp u op).1.down - u.down)) := rfl
+
+theorem closeTun_of_connecting {s : St} {t n} (h : (s.tuns.getD t default).st = .connecting n) :
+    closeTun s t = updTun s t .closed s.cells.tcpDec := by
+  unfold closeTun; rw [h]; rfl
+theorem closeTun_of_open {s : St} {t a b} (h : (s.tuns.getD t default).st = .open a b) :
+    closeTun s t = updTun s t .closed s.cells.tcpDec := by
+  unfold closeTun; rw [h]; rfl
+theorem closeTun_of_mux {s : St} {t u} (h : (s.tuns.getD t default).st = .mux u) :
+    closeTun s t = updTun s t .closed (s.cells.udpDelta u { u with socks := [] }) := by
+  unfold closeTun; rw [h]; rfl
+theorem closeTun_of_closed {s : St} {t} (h : (s.tuns.getD t default).st = .closed) :
+    closeTun s t = s := by
+  unfold closeTun; rw [h]
+
+@[simp] theorem updTun_now (s : St) (t st cells) : (updTun s t st cells).now = s.now := rfl
+@[simp] theorem updTun_sess (s : St) (t st cells) : (updTun s t st cells).sess = s.sess := rfl
+@[simp] theorem updTun_cells (s : St) (t st cells) : (updTun s t st cells).cells = cells := rfl
+@[simp] theorem updTun_tuns (s : St) (t st cells) : (updTun s t st cells).tuns = (setTun s t st).tuns := rfl
+@[simp] theorem aliveS_updTun (s : St) (t st cells i) : aliveS (updTun s t st cells) i = aliveS s i := rfl
+@[simp] theorem protoOf_updTun (s : St) (t st cells i) : protoOf (updTun s t st cells) i = protoOf s i := rfl
+
+theorem updTun_getD (s : St) (t st cells) (j : Nat) :
+    (updTun s t st cells).tuns.getD j default =
+      if j = t ∧ t < s.tuns.length then { (s.tuns.getD t default) with st := st }
+      else s.tuns.getD j default := by
+  simp only [updTun_tuns]
+  by_cases h : j = t
+  · subst h
+    by_cases hl : j < s.tuns.length
+    · rw [setTun_getD_self _ _ _ hl, if_pos ⟨rfl, hl⟩]
+    · rw [setTun_getD_self_ge _ _ _ (Nat.le_of_not_lt hl), if_neg (fun hh => hl hh.2)]
+  · rw [setTun_getD_ne _ _ _ h, if_neg (fun hh => h hh.1)]
+
+@[simp] theorem updTun_length (s : St) (t st cells) :
+    (updTun s t st cells).tuns.length = s.tuns.length := by simp
+
+/-! ### frame: what every transition below `step` keeps or only moves one way -/
+
+structure Fr (s s' : St) : Prop where
+  now : s'.now = s.now
+  len : s'.tuns.length = s.tuns.length
+  tsess : ∀ j, (s'.tuns.getD j default).sess = (s.tuns.getD j default).sess
+  tcpw : ∀ j, tcpW (s'.tuns.getD j default) ≤ tcpW (s.tuns.getD j default)
+  conn : ∀ j n, (s'.tuns.getD j default).st = .connecting n → (s.tuns.getD j default).st = .connecting n
+  mux : ∀ j u, (s'.tuns.getD j default).st = .mux u → ∃ u0, (s.tuns.getD j default).st = .mux u0
+  alive : ∀ i, aliveS s' i = true → aliveS s i = true
+  ctcp : s'.cells.tcp ≤ s.cells.tcp
+  up1 : s.cells.up1 ≤ s'.cells.up1
+  up2 : s.cells.up2 ≤ s'.cells.up2
+  dn1 : s.cells.dn1 ≤ s'.cells.dn1
+  dn2 : s.cells.dn2 ≤ s'.cells.dn2
+
+theorem Fr.refl (s : St) : Fr s s :=
+  ⟨rfl, rfl, fun _ => rfl, fun _ => Nat.le_refl _, fun _ _ h => h, fun _ u h => ⟨u, h⟩, fun _ h => h,
+   Int.le_refl _, Nat.le_refl _, Nat.le_refl _, Nat.le_refl _, Nat.le_refl _⟩
+
+theorem Fr.trans {a b d : St} (h1 : Fr a b) (h2 : Fr b d) : Fr a d where
+  now := h2.now.trans h1.now
+  len := h2.len.trans h1.len
+  tsess j := (h2.tsess j).trans (h1.tsess j)
+  tcpw j := Nat.le_trans (h2.tcpw j) (h1.tcpw j)
+  conn j n h := h1.conn j n (h2.conn j n h)
+  mux j u h := by obtain ⟨u0, h0⟩ := h2.mux j u h; exact h1.mux j u0 h0
+  alive i h := h1.alive i (h2.alive i h)
+  ctcp := Int.le_trans h2.ctcp h1.ctcp
+  up1 := Nat.le_trans h1.up1 h2.up1
+  up2 := Nat.le_trans h1.up2 h2.up2
+  dn1 := Nat.le_trans h1.dn1 h2.dn1
+  dn2 := Nat.le_trans h1.dn2 h2.dn2
+
+theorem Fr.upd (s : St) (t : Nat) (st : TunState) (cells : Cells)
+    (hw : tcpW { (s.tuns.getD t default) with st := st } ≤ tcpW (s.tuns.getD t default))
+    (hc : ∀ n, st = .connecting n → (s.tuns.getD t default).st = .connecting n)
+    (hm : ∀ u, st = .mux u → ∃ u0, (s.tuns.getD t default).st = .mux u0)
+    (h0 : cells.tcp ≤ s.cells.tcp) (h1 : s.cells.up1 ≤ cells.up1) (h2 : s.cells.up2 ≤ cells.up2)
+    (h3 : s.cells.dn1 ≤ cells.dn1) (h4 : s.cells.dn2 ≤ cells.dn2) :
+    Fr s (updTun s t st cells) where
+  now := rfl
+  len := by simp
+  tsess j := by rw [updTun_getD]; split
+                · next h => rw [h.1]
+                · rfl
+  tcpw j := by rw [updTun_getD]; split
+               · next h => rw [h.1]; exact hw
+               · exact Nat.le_refl _
+  conn j n := by rw [updTun_getD]; split
+                 · next h => rw [h.1]; exact hc n
+                 · exact id
+  mux j u := by rw [updTun_getD]; split
+                · next h => rw [h.1]; exact hm u
+                · exact fun h => ⟨u, h⟩
+  alive i h := h
+  ctcp := h0
+  up1 := h1
+  up2 := h2
+  dn1 := h3
+  dn2 := h4
+
+/-! ### the cells equal the object counts -/
+
+structure Eq4 (s : St) : Prop where
+  s1 : s.cells.s1 = ((s.sess.map (sessW .h1)).sum : Nat)
+  s2 : s.cells.s2 = ((s.sess.map (sessW .h2)).sum : Nat)
+  tcp : s.cells.tcp = ((s.tuns.map tcpW).sum : Nat)
+  udp : s.cells.udp = ((s.tuns.map udpW).sum : Nat)
+
+theorem Eq4.upd {s : St} (h : Eq4 s) {t : Nat} (ht : t < s.tuns.length) (st : TunState) (cells : Cells)
+    (h1 : cells.s1 = s.cells.s1) (h2 : cells.s2 = s.cells.s2)
+    (h3 : cells.tcp + (tcpW (s.tuns.getD t default) : Nat)
+            = s.cells.tcp + (tcpW { (s.tuns.getD t default) with st := st } : Nat))
+    (h4 : cells.udp + (udpW (s.tuns.getD t default) : Nat)
+            = s.cells.udp + (udpW { (s.tuns.getD t default) with st := st } : Nat)) :
+    Eq4 (updTun s t st cells) := by
+  have e3 := sum_map_set tcpW s.tuns t { (s.tuns.getD t default) with st := st } default ht
+  have e4 := sum_map_set udpW s.tuns t { (s.tuns.getD t default) with st := st } default ht
+  obtain ⟨a1, a2, a3, a4⟩ := h
+  refine ⟨?_, ?_, ?_, ?_⟩
+  · simpa [h1] using a1
+  · simpa [h2] using a2
+  · show cells.tcp = (((s.tuns.set t _).map tcpW).sum : Nat); omega
+  · show cells.udp = (((s.tuns.set t _).map udpW).sum : Nat); omega
+
+/-! ### every multiplexer has a live client; pending connects are not from the future -/
+
+def TunOk (ex : Nat → Prop) (e : Nat) (s : St) (tn : Tun) : Prop :=
+  (∀ u, tn.st = .mux u → ¬ ex tn.sess → aliveS s tn.sess = true) ∧
+  (∀ n, tn.st = .connecting n → n + e ≤ s.now)
+
+def Inv2 (ex : Nat → Prop) (e : Nat) (s : St) : Prop :=
+  ∀ j, j < s.tuns.length → TunOk ex e s (s.tuns.getD j default)
+
+theorem Inv2.upd {ex e} {s : St} (h : Inv2 ex e s) (t : Nat) (st : TunState) (cells : Cells)
+    (hc : ∀ n, st = .connecting n → (s.tuns.getD t default).st = .connecting n)
+    (hm : ∀ u, st = .mux u → ∃ u0, (s.tuns.getD t default).st = .mux u0) :
+    Inv2 ex e (updTun s t st cells) := by
+  intro j hj
+  have hj' : j < s.tuns.length := by simpa using hj
+  rw [updTun_getD]
+  split
+  · next hh =>
+    obtain ⟨rfl, _⟩ := hh
+    refine ⟨fun u hu hx => ?_, fun n hn => ?_⟩
+    · obtain ⟨u0, h0⟩ := hm u hu
+      exact (h j hj').1 u0 h0 hx
+    · exact (h j hj').2 n (hc n hn)
+  · exact h j hj'
+
+structure Pres (s s' : St) : Prop where
+  fr : Fr s s'
+  eq4 : Eq4 s → Eq4 s'
+  inv2 : ∀ ex e, Inv2 ex e s → Inv2 ex e s'
+
+theorem Pres.refl (s : St) : Pres s s := ⟨Fr.refl s, id, fun _ _ => id⟩
+theorem Pres.trans {a b d : St} (h1 : Pres a b) (h2 : Pres b d) : Pres a d :=
+  ⟨h1.fr.trans h2.fr, fun h => h2.eq4 (h1.eq4 h), fun ex e h => h2.inv2 ex e (h1.inv2 ex e h)⟩
+
+theorem Pres.upd {s : St} {t : Nat} (ht : t < s.tuns.length) (st : TunState) (cells : Cells)
+    (hw : tcpW { (s.tuns.getD t default) with st := st } ≤ tcpW (s.tuns.getD t default))
+    (hc : ∀ n, st = .connecting n → (s.tuns.getD t default).st = .connecting n)
+    (hm : ∀ u, st = .mux u → ∃ u0, (s.tuns.getD t default).st = .mux u0)
+    (h0 : cells.tcp ≤ s.cells.tcp) (h1 : s.cells.up1 ≤ cells.up1) (h2 : s.cells.up2 ≤ cells.up2)
+    (h3 : s.cells.dn1 ≤ cells.dn1) (h4 : s.cells.dn2 ≤ cells.dn2)
+    (e1 : cells.s1 = s.cells.s1) (e2 : cells.s2 = s.cells.s2)
+    (e3 : cells.tcp + (tcpW (s.tuns.getD t default) : Nat)
+            = s.cells.tcp + (tcpW { (s.tuns.getD t default) with st := st } : Nat))
+    (e4 : cells.udp + (udpW (s.tuns.getD t default) : Nat)
+            = s.cells.udp + (udpW { (s.tuns.getD t default) with st := st } : Nat)) :
+    Pres s (updTun s t st cells) :=
+  ⟨Fr.upd s t st cells hw hc hm h0 h1 h2 h3 h4, fun h => h.upd ht st cells e1 e2 e3 e4,
+   fun _ _ h => h.upd t st cells hc hm⟩
+
+theorem gauge_no_socks (u : UdpFlows.St) : ({ u with socks := [] } : UdpFlows.St).gauge = 0 := rfl
+
+theorem Pres.of_closeTun (s : St) {t : Nat} (ht : t < s.tuns.length) : Pres s (closeTun s t) := by
+  cases hst : (s.tuns.getD t default).st with
+  | connecting n =>
+    rw [closeTun_of_connecting hst]
+    apply Pres.upd ht <;> simp [tcpW_of_connecting hst, udpW_of_connecting hst] <;> omega
+  | «open» a b =>
+    rw [closeTun_of_open hst]
+    apply Pres.upd ht <;> simp [tcpW_of_open hst, udpW_of_open hst] <;> omega
+  | mux u =>
+    rw [closeTun_of_mux hst]
+    apply Pres.upd ht <;> simp [tcpW_of_mux hst, udpW_of_mux hst, gauge_no_socks]
+  | closed =>
+    rw [closeTun_of_closed hst]; exact Pres.refl s
+
+theorem Pres.of_setOpen (s : St) {t : Nat} {a b : Bool} (h : (s.tuns.getD t default).st = .open a b)
+    (a' b' : Bool) : Pres s (setTun s t (.open a' b')) := by
+  rw [setTun_eq_upd]
+  apply Pres.upd (tun_lt_of_open h) <;> simp [tcpW_of_open h, udpW_of_open h]
+
+theorem Pres.of_stepMux (c : Cfg) (s : St) {t : Nat} {u : UdpFlows.St}
+    (h : (s.tuns.getD t default).st = .mux u) (op : UdpFlows.Op) : Pres s (stepMux c s t u op) := by
+  rw [stepMux_eq_upd]
+  apply Pres.upd (tun_lt_of_mux h)
+  case hw => simp [tcpW_of_mux h]
+  case hc => simp
+  case hm => intro _ _; exact ⟨u, h⟩
+  case h0 => simp
+  case h1 => simpa using Cells.addUp_up1_le (s.cells.udpDelta u (UdpFlows.step c.udp u op).1) _ _
+  case h2 => simpa using Cells.addUp_up2_le (s.cells.udpDelta u (UdpFlows.step c.udp u op).1) _ _
+  case h3 => simpa using Cells.addDn_dn1_le ((s.cells.udpDelta u (UdpFlows.step c.udp u op).1).addUp _ _) _ _
+  case h4 => simpa using Cells.addDn_dn2_le ((s.cells.udpDelta u (UdpFlows.step c.udp u op).1).addUp _ _) _ _
+  case e1 => simp
+  case e2 => simp
+  case e3 => simp [tcpW_of_mux h]
+  case e4 => simp [udpW_of_mux h]
+
+/-! ### `clientGone` -/
+
+def goneBody (i : Nat) (s : St) (t : Nat) : St :=
+  let tn := s.tuns.getD t default
+  if tn.sess = i then
+    match tn.st with
+    | .open ce _ => setTun s t (.open ce true)
+    | .mux _ => closeTun s t
+    | _ => s
+  else s
+
+theorem clientGone_eq (s : St) (i : Nat) :
+    clientGone s i = (List.range s.tuns.length).foldl (goneBody i) s := rfl
+
+theorem Pres.of_goneBody (i : Nat) (s : St) (t : Nat) : Pres s (goneBody i s t) := by
+  unfold goneBody
+  simp only []
+  split
+  · split
+    · next ce o h => exact Pres.of_setOpen s h _ _
+    · next u h => exact Pres.of_closeTun s (tun_lt_of_mux h)
+    · exact Pres.refl s
+  · exact Pres.refl s
+
+theorem Pres.of_clientGone (s : St) (i : Nat) : Pres s (clientGone s i) := by
+  rw [clientGone_eq]
+  exact foldl_inv (Pres s) (fun _ => True) (goneBody i)
+    (fun s' t _ h => h.trans (Pres.of_goneBody i s' t)) _ (fun _ _ => trivial) s (Pres.refl s)
+
+/-- tunnel `j`, if it belongs to session `i`, is not a multiplexer -/
+def NoMux (i : Nat) (j : Nat) (s : St) : Prop :=
+  (s.tuns.getD j default).sess = i → ∀ u, (s.tuns.getD j default).st ≠ .mux u
+
+theorem NoMux.of_fr {i j : Nat} {s s' : St} (h : NoMux i j s) (f : Fr s s') : NoMux i j s' := by
+  intro hs u hu
+  obtain ⟨u0, h0⟩ := f.mux j u hu
+  exact h ((f.tsess j).symm.trans hs) u0 h0
+
+theorem goneBody_noMux (i : Nat) (s : St) (t : Nat) : NoMux i t (goneBody i s t) := by
+  intro hs u hu
+  have hs0 : (s.tuns.getD t default).sess = i := ((Pres.of_goneBody i s t).fr.tsess t).symm.trans hs
+  unfold goneBody at hu
+  simp only [hs0, if_true] at hu
+  split at hu
+  · next ce o h =>
+    rw [setTun_getD_self _ _ _ (tun_lt_of_open h)] at hu
+    cases hu
+  · next u0 h =>
+    rw [closeTun_of_mux h, updTun_getD, if_pos ⟨rfl, tun_lt_of_mux h⟩] at hu
+    cases hu
+  · next h1 h2 => exact h2 u hu
+
+theorem clientGone_noMux (s : St) (i j : Nat) : NoMux i j (clientGone s i) := by
+  by_cases hj : j < s.tuns.length
+  · rw [clientGone_eq]
+    exact (foldl_range_all (goneBody i) (fun _ => True) (NoMux i) s.tuns.length
+      (fun _ _ _ _ => trivial)
+      (fun s' t j _ _ r => r.of_fr (Pres.of_goneBody i s' t).fr)
+      (fun s' t _ _ => goneBody_noMux i s' t) s.tuns.length (Nat.le_refl _) s trivial).2 j hj
+  · intro _ u hu
+    have : (clientGone s i).tuns.length ≤ j := by
+      rw [(Pres.of_clientGone s i).fr.len]; exact Nat.le_of_not_lt hj
+    rw [getD_ge _ _ this] at hu
+    cases hu
+
+/-! ### `endSession` -/
+
+@[simp] theorem endSession_tuns (s : St) (i : Nat) : (endSession s i).tuns = s.tuns := by
+  unfold endSession; split <;> rfl
+@[simp] theorem endSession_now (s : St) (i : Nat) : (endSession s i).now = s.now := by
+  unfold endSession; split <;> rfl
+@[simp] theorem endSession_tcp (s : St) (i : Nat) : (endSession s i).cells.tcp = s.cells.tcp := by
+  unfold endSession; split <;> simp
+@[simp] theorem endSession_udp (s : St) (i : Nat) : (endSession s i).cells.udp = s.cells.udp := by
+  unfold endSession; split <;> simp
+@[simp] theorem endSession_up1 (s : St) (i : Nat) : (endSession s i).cells.up1 = s.cells.up1 := by
+  unfold endSession; split <;> simp
+@[simp] theorem endSession_up2 (s : St) (i : Nat) : (endSession s i).cells.up2 = s.cells.up2 := by
+  unfold endSession; split <;> simp
+@[simp] theorem endSession_dn1 (s : St) (i : Nat) : (endSession s i).cells.dn1 = s.cells.dn1 := by
+  unfold endSession; split <;> simp
+@[simp] theorem endSession_dn2 (s : St) (i : Nat) : (endSession s i).cells.dn2 = s.cells.dn2 := by
+  unfold endSession; split <;> simp
+
+theorem endSession_of_dead {s : St} {i : Nat} (h : aliveS s i = false) : endSession s i = s := by
+  simp [endSession, h]
+
+theorem aliveS_endSession (s : St) (i j : Nat) :
+    aliveS (endSession s i) j = (aliveS s j && decide (j ≠ i)) := by
+  unfold endSession
+  split
+  · next ha =>
+    by_cases hj : j = i
+    · subst hj
+      simp [aliveS, getD_set_self _ _ _ (aliveS_lt ha)]
+    · simp [aliveS, getD_set_ne _ _ _ hj, hj]
+  · next ha =>
+    by_cases hj : j = i
+    · subst hj; simpa using ha
+    · simp [hj]
+
+theorem Fr.of_endSession (s : St) (i : Nat) : Fr s (endSession s i) where
+  now := by simp
+  len := by simp
+  tsess j := by simp
+  tcpw j := by simp
+  conn j n := by simp
+  mux j u h := ⟨u, by simpa using h⟩
+  alive j h := by rw [aliveS_endSession] at h; simp at h; exact h.1
+  ctcp := by simp
+  up1 := by simp
+  up2 := by simp
+  dn1 := by simp
+  dn2 := by simp
+
+theorem Eq4.of_endSession {s : St} (h : Eq4 s) (i : Nat) : Eq4 (endSession s i) := by
+  unfold endSession
+  split
+  · next ha =>
+    have hl := aliveS_lt ha
+    have e1 := sum_map_set (sessW .h1) s.sess i { (s.sess.getD i default) with alive := false } default hl
+    have e2 := sum_map_set (sessW .h2) s.sess i { (s.sess.getD i default) with alive := false } default hl
+    have ha' : (s.sess.getD i default).alive = true := ha
+    obtain ⟨a1, a2, a3, a4⟩ := h
+    cases hp : (s.sess.getD i default).proto <;>
+      simp [sessW, ha', hp] at e1 e2 <;>
+      refine ⟨?_, ?_, by simpa using a3, by simpa using a4⟩ <;>
+      simp [protoOf, hp, Cells.sessDec, sessW] <;> omega
+  · exact h
+
+theorem Inv2.of_endSession {ex e} {s : St} (h : Inv2 ex e s) (i : Nat) :
+    Inv2 (fun k => ex k ∨ k = i) e (endSession s i) := by
+  intro j hj
+  rw [endSession_tuns] at hj
+  obtain ⟨m, c⟩ := h j hj
+  unfold TunOk
+  rw [endSession_tuns, endSession_now]
+  refine ⟨fun u hu hx => ?_, c⟩
+  rw [aliveS_endSession]
+  have hx' : ¬ ex (s.tuns.getD j default).sess ∧ (s.tuns.getD j default).sess ≠ i := by
+    constructor
+    · exact fun h => hx (Or.inl h)
+    · exact fun h => hx (Or.inr h)
+  simp [m u hu hx'.1, hx'.2]
+
+/-! ### a session ends and its tunnels with it -/
+
+theorem Pres.of_endGone (s : St) (i : Nat) : Pres s (clientGone (endSession s i) i) where
+  fr := (Fr.of_endSession s i).trans (Pres.of_clientGone _ i).fr
+  eq4 h := (Pres.of_clientGone _ i).eq4 (h.of_endSession i)
+  inv2 ex e h := by
+    have h2 := (Pres.of_clientGone _ i).inv2 _ _ (h.of_endSession i)
+    intro j hj
+    obtain ⟨m, c⟩ := h2 j hj
+    refine ⟨fun u hu hx => m u hu ?_, c⟩
+    intro hor
+    rcases hor with h' | h'
+    · exact hx h'
+    · exact clientGone_noMux (endSession s i) i j h' u hu
+
+theorem endIfH1_eq (s : St) (i : Nat) :
+    endIfH1 s i = if protoOf s i = .h1 then clientGone (endSession s i) i else s := rfl
+
+theorem Pres.of_endIfH1 (s : St) (i : Nat) : Pres s (endIfH1 s i) := by
+  rw [endIfH1_eq]; split
+  · exact Pres.of_endGone s i
+  · exact Pres.refl s
+
+/-! ### the clock advances -/
+
+def advBody (c : Cfg) (ms : Nat) (s : St) (t : Nat) : St :=
+  let tn := s.tuns.getD t default
+  match tn.st with
+  | .connecting since =>
+    if since + c.establish ≤ s.now then endIfH1 (closeTun s t) tn.sess else s
+  | .open _ _ =>
+    if 2 * c.tcpIdle ≤ ms then endIfH1 (closeTun s t) tn.sess else s
+  | .mux u => stepMux c s t u (.adv ms)
+  | .closed => s
+
+theorem step_adv_eq (c : Cfg) (s : St) (ms : Nat) :
+    step c s (.adv ms) =
+      (List.range s.tuns.length).foldl (advBody c ms) { s with now := s.now + ms } := rfl
+
+theorem Pres.of_advBody (c : Cfg) (ms : Nat) (s : St) {t : Nat} (ht : t < s.tuns.length) :
+    Pres s (advBody c ms s t) := by
+  unfold advBody
+  simp only []
+  split
+  · split
+    · exact (Pres.of_closeTun s ht).trans (Pres.of_endIfH1 _ _)
+    · exact Pres.refl s
+  · split
+    · exact (Pres.of_closeTun s ht).trans (Pres.of_endIfH1 _ _)
+    · exact Pres.refl s
+  · next u h => exact Pres.of_stepMux c s h _
+  · exact Pres.refl s
+
+theorem Pres.of_advFold (c : Cfg) (ms : Nat) (s : St) (l : List Nat) (hl : ∀ t ∈ l, t < s.tuns.length) :
+    Pres s (l.foldl (advBody c ms) s) :=
+  foldl_inv (Pres s) (fun t => t < s.tuns.length) (advBody c ms)
+    (fun s' t ht h => h.trans (Pres.of_advBody c ms s' (by rw [h.fr.len]; exact ht))) l hl s (Pres.refl s)
+
+/-! ### one `step` -/
+
+abbrev noEx : Nat → Prop := fun _ => False
+
+structure StepOk (s s' : St) : Prop where
+  eq4 : Eq4 s → Eq4 s'
+  inv2 : Inv2 noEx 0 s → Inv2 noEx 0 s'
+  up1 : s.cells.up1 ≤ s'.cells.up1
+  up2 : s.cells.up2 ≤ s'.cells.up2
+  dn1 : s.cells.dn1 ≤ s'.cells.dn1
+  dn2 : s.cells.dn2 ≤ s'.cells.dn2
+
+theorem StepOk.refl (s : St) : StepOk s s :=
+  ⟨id, id, Nat.le_refl _, Nat.le_refl _, Nat.le_refl _, Nat.le_refl _⟩
+
+theorem StepOk.trans {a b d : St} (h1 : StepOk a b) (h2 : StepOk b d) : StepOk a d :=
+  ⟨fun h => h2.eq4 (h1.eq4 h), fun h => h2.inv2 (h1.inv2 h), Nat.le_trans h1.up1 h2.up1,
+   Nat.le_trans h1.up2 h2.up2, Nat.le_trans h1.dn1 h2.dn1, Nat.le_trans h1.dn2 h2.dn2⟩
+
+theorem Pres.ok {s s' : St} (h : Pres s s') : StepOk s s' :=
+  ⟨h.eq4, h.inv2 _ _, h.fr.up1, h.fr.up2, h.fr.dn1, h.fr.dn2⟩
+
+/-- only the byte counters change -/
+theorem StepOk.cells (s : St) (cells : Cells) (e1 : cells.s1 = s.cells.s1) (e2 : cells.s2 = s.cells.s2)
+    (e3 : cells.tcp = s.cells.tcp) (e4 : cells.udp = s.cells.udp)
+    (h1 : s.cells.up1 ≤ cells.up1) (h2 : s.cells.up2 ≤ cells.up2)
+    (h3 : s.cells.dn1 ≤ cells.dn1) (h4 : s.cells.dn2 ≤ cells.dn2) :
+    StepOk s { s with cells := cells } :=
+  ⟨fun h => ⟨e1.trans h.s1, e2.trans h.s2, e3.trans h.tcp, e4.trans h.udp⟩, fun h => h, h1, h2, h3, h4⟩
+
+theorem getD_append_left {α : Type} (l : List α) (a d : α) {j : Nat} (h : j < l.length) :
+    (l ++ [a]).getD j d = l.getD j d := by
+  simp [List.getD_eq_getElem?_getD, List.getElem?_append_left h]
+
+theorem getD_append_last {α : Type} (l : List α) (a d : α) : (l ++ [a]).getD l.length d = a := by
+  simp [List.getD_eq_getElem?_getD]
+
+/-- a tunnel is appended -/
+theorem StepOk.append (s : St) (tn : Tun) (cells : Cells)
+    (e1 : cells.s1 = s.cells.s1) (e2 : cells.s2 = s.cells.s2)
+    (e3 : cells.tcp = s.cells.tcp + (tcpW tn : Nat)) (e4 : cells.udp = s.cells.udp + (udpW tn : Nat))
+    (h1 : s.cells.up1 ≤ cells.up1) (h2 : s.cells.up2 ≤ cells.up2)
+    (h3 : s.cells.dn1 ≤ cells.dn1) (h4 : s.cells.dn2 ≤ cells.dn2)
+    (hok : TunOk noEx 0 s tn) :
+    StepOk s { s with tuns := s.tuns ++ [tn], cells := cells } where
+  eq4 h := by
+    obtain ⟨a1, a2, a3, a4⟩ := h
+    refine ⟨e1.trans a1, e2.trans a2, ?_, ?_⟩
+    · simp only [List.map_append, List.sum_append, List.map_cons, List.map_nil, List.sum_cons, List.sum_nil]
+      omega
+    · simp only [List.map_append, List.sum_append, List.map_cons, List.map_nil, List.sum_cons, List.sum_nil]
+      omega
+  inv2 h := by
+    intro j hj
+    simp only [List.length_append, List.length_cons, List.length_nil] at hj
+    by_cases hjl : j < s.tuns.length
+    · show TunOk noEx 0 _ ((s.tuns ++ [tn]).getD j default)
+      rw [getD_append_left _ _ _ hjl]
+      exact h j hjl
+    · have : j = s.tuns.length := by omega
+      subst this
+      show TunOk noEx 0 _ ((s.tuns ++ [tn]).getD s.tuns.length default)
+      rw [getD_append_last]
+      exact hok
+  up1 := h1
+  up2 := h2
+  dn1 := h3
+  dn2 := h4
+
+theorem aliveS_sessOpen (s : St) (x : Sess) (cells : Cells) {i : Nat} (h : aliveS s i = true) :
+    aliveS { s with sess := s.sess ++ [x], cells := cells } i = true := by
+  have hl := aliveS_lt h
+  unfold aliveS at h ⊢
+  show ((s.sess ++ [x]).getD i default).alive = true
+  rw [getD_append_left _ _ _ hl]; exact h
+
+theorem StepOk.sessOpen (s : St) (p : Proto) :
+    StepOk s { s with sess := s.sess ++ [{ proto := p, alive := true }], cells := s.cells.sessInc p } where
+  eq4 h := by
+    obtain ⟨a1, a2, a3, a4⟩ := h
+    refine ⟨?_, ?_, by simpa using a3, by simpa using a4⟩ <;>
+      cases p <;> simp [Cells.sessInc, sessW] <;> omega
+  inv2 h := by
+    intro j hj
+    obtain ⟨m, c⟩ := h j hj
+    exact ⟨fun u hu hx => aliveS_sessOpen s _ _ (m u hu hx), c⟩
+  up1 := by simp
+  up2 := by simp
+  dn1 := by simp
+  dn2 := by simp
+
+theorem StepOk.now (s : St) (ms : Nat) : StepOk s { s with now := s.now + ms } where
+  eq4 h := ⟨h.s1, h.s2, h.tcp, h.udp⟩
+  inv2 h := by
+    intro j hj
+    obtain ⟨m, c⟩ := h j hj
+    exact ⟨m, fun n hn => Nat.le_trans (c n hn) (Nat.le_add_right _ _)⟩
+  up1 := Nat.le_refl _
+  up2 := Nat.le_refl _
+  dn1 := Nat.le_refl _
+  dn2 := Nat.le_refl _
+
+theorem TunOk.of_not (s : St) (tn : Tun) (h1 : ∀ u, tn.st ≠ .mux u) (h2 : ∀ n, tn.st ≠ .connecting n) :
+    TunOk noEx 0 s tn :=
+  And.intro (fun u hu => absurd hu (h1 u)) (fun n hn => absurd hn (h2 n))
+
+theorem muxInit_gauge (c : Cfg) (now : Nat) : (muxInit c now).gauge = 0 := rfl
+
+theorem step_ok (c : Cfg) (s : St) (op : Op) : StepOk s (step c s op) := by
+  cases op with
+  | sessOpen p => exact StepOk.sessOpen s p
+  | sessClose i => exact (Pres.of_endGone s i).ok
+  | tunOpen i k =>
+    simp only [step]
+    split
+    · exact StepOk.append s _ s.cells rfl rfl (by simp) (by simp) (Nat.le_refl _) (Nat.le_refl _)
+        (Nat.le_refl _) (Nat.le_refl _) (TunOk.of_not _ _ (fun u hu => nomatch hu) (fun n hn => nomatch hn))
+    · next hcond =>
+      have ha : aliveS s i = true := by
+        cases h : aliveS s i
+        · simp [h] at hcond
+        · rfl
+      cases k with
+      | origin =>
+        exact StepOk.append s _ _ rfl rfl (by simp) (by simp) (Nat.le_refl _) (Nat.le_refl _)
+          (Nat.le_refl _) (Nat.le_refl _) (TunOk.of_not _ _ (fun u hu => nomatch hu) (fun n hn => nomatch hn))
+      | dead =>
+        exact (StepOk.append s { sess := i, st := .closed } s.cells rfl rfl (by simp) (by simp)
+          (Nat.le_refl _) (Nat.le_refl _)
+          (Nat.le_refl _) (Nat.le_refl _) (TunOk.of_not _ _ (fun u hu => nomatch hu) (fun n hn => nomatch hn))).trans
+          (Pres.of_endIfH1 _ i).ok
+      | hang =>
+        exact StepOk.append s _ _ rfl rfl (by simp) (by simp) (Nat.le_refl _) (Nat.le_refl _)
+          (Nat.le_refl _) (Nat.le_refl _)
+          (And.intro (fun u hu => nomatch hu) (fun n hn => (by cases hn; exact Nat.le_refl _)))
+      | udp =>
+        exact StepOk.append s _ s.cells rfl rfl (by simp) (by simp [muxInit_gauge]) (Nat.le_refl _)
+          (Nat.le_refl _) (Nat.le_refl _) (Nat.le_refl _)
+          (And.intro (fun u _ _ => ha) (fun n hn => nomatch hn))
+  | up t n =>
+    simp only [step]
+    split
+    · exact StepOk.cells s _ (by simp) (by simp) (by simp) (by simp) (Cells.addUp_up1_le _ _ _)
+        (Cells.addUp_up2_le _ _ _) (by simp) (by simp)
+    · exact StepOk.refl s
+  | down t n =>
+    simp only [step]
+    split
+    · exact StepOk.cells s _ (by simp) (by simp) (by simp) (by simp) (by simp) (by simp)
+        (Cells.addDn_dn1_le _ _ _) (Cells.addDn_dn2_le _ _ _)
+    · next h => exact (Pres.of_closeTun s (tun_lt_of_open h)).ok
+    · exact StepOk.refl s
+  | tunClose t how =>
+    simp only [step]
+    split
+    · split
+      · next h => exact ((Pres.of_closeTun s (tun_lt_of_open h)).trans (Pres.of_endIfH1 _ _)).ok
+      · exact StepOk.refl s
+    · split
+      · exact StepOk.refl s
+      · split
+        · exact (Pres.of_endGone s _).ok
+        · split
+          · split
+            · next h => exact (Pres.of_setOpen s h _ _).ok
+            · next h => exact (Pres.of_closeTun s (tun_lt_of_mux h)).ok
+            · exact StepOk.refl s
+          · split
+            · next h => exact (Pres.of_closeTun s (tun_lt_of_open h)).ok
+            · next h => exact (Pres.of_closeTun s (tun_lt_of_mux h)).ok
+            · next h => exact (Pres.of_setOpen s h _ _).ok
+            · exact StepOk.refl s
+  | udpUp t m n =>
+    simp only [step]
+    split
+    · next h => exact (Pres.of_stepMux c s h _).ok
+    · exact StepOk.refl s
+  | udpDown t m n =>
+    simp only [step]
+    split
+    · next h => exact (Pres.of_stepMux c s h _).ok
+    · exact StepOk.refl s
+  | adv ms =>
+    rw [step_adv_eq]
+    exact (StepOk.now s ms).trans
+      (Pres.of_advFold c ms _ _ (fun t ht => by simpa using ht)).ok
+
+/-! ### histories -/
+
+theorem run_snoc (c : Cfg) (s : St) (ops : List Op) (op : Op) :
+    run c s (ops ++ [op]) = step c (run c s ops) op := by
+  simp [run, List.foldl_append]
+
+theorem run_append (c : Cfg) (s : St) (a b : List Op) : run c s (a ++ b) = run c (run c s a) b := by
+  simp [run, List.foldl_append]
+
+theorem run_inv (c : Cfg) (P : St → Prop) (hstep : ∀ s op, P s → P (step c s op)) (s : St) (h : P s)
+    (ops : List Op) : P (run c s ops) := by
+  induction ops generalizing s with
+  | nil => exact h
+  | cons op ops ih => exact ih _ (hstep s op h)
+
+theorem eq4_init : Eq4 {} := ⟨rfl, rfl, rfl, rfl⟩
+theorem inv2_init : Inv2 noEx 0 {} := fun j hj => absurd hj (Nat.not_lt_zero j)
+
+theorem run_eq4 (c : Cfg) (ops : List Op) : Eq4 (run c {} ops) :=
+  run_inv c Eq4 (fun s op h => (step_ok c s op).eq4 h) _ eq4_init ops
+
+theorem run_inv2 (c : Cfg) (ops : List Op) : Inv2 noEx 0 (run c {} ops) :=
+  run_inv c (Inv2 noEx 0) (fun s op h => (step_ok c s op).inv2 h) _ inv2_init ops
+
+theorem Eq4.live {s : St} (h : Eq4 s) :
+    s.cells.s1 = (liveSessions s .h1 : Int) ∧ s.cells.s2 = (liveSessions s .h2 : Int) ∧
+    s.cells.tcp = (liveTcp s : Int) ∧ s.cells.udp = (liveUdp s : Int) := by
+  rw [liveSessions_eq, liveSessions_eq, liveTcp_eq, liveUdp_eq]
+  exact ⟨h.s1, h.s2, h.tcp, h.udp⟩
+
+/-! ### all clients gone -/
+
+theorem sum_map_zero {α : Type} (f : α → Nat) (l : List α) (h : ∀ x ∈ l, f x = 0) : (l.map f).sum = 0 := by
+  induction l with
+  | nil => rfl
+  | cons x xs ih =>
+    simp only [List.map_cons, List.sum_cons]
+    rw [h x List.mem_cons_self, ih (fun y hy => h y (List.mem_cons_of_mem _ hy))]
+
+theorem mem_getD {α : Type} {l : List α} {x : α} (d : α) (h : x ∈ l) : ∃ j, j < l.length ∧ l.getD j d = x := by
+  obtain ⟨j, hj, e⟩ := List.mem_iff_getElem.mp h
+  exact ⟨j, hj, by simp [List.getD_eq_getElem?_getD, hj, e]⟩
+
+def AllDead (s : St) : Prop := ∀ x ∈ s.sess, x.alive = false
+
+theorem AllDead.not_alive {s : St} (h : AllDead s) (k : Nat) : aliveS s k = false := by
+  by_cases hk : k < s.sess.length
+  · unfold aliveS
+    have : s.sess.getD k default = s.sess[k] := by simp [List.getD_eq_getElem?_getD, hk]
+    rw [this]; exact h _ (List.getElem_mem hk)
+  · cases hh : aliveS s k
+    · rfl
+    · exact absurd (aliveS_lt hh) hk
+
+theorem AllDead.of_not_alive {s : St} (h : ∀ k, aliveS s k = false) : AllDead s := by
+  intro x hx
+  obtain ⟨j, _, e⟩ := mem_getD default hx
+  have := h j
+  unfold aliveS at this
+  rw [e] at this; exact this
+
+theorem AllDead.sess_zero {s : St} (h : AllDead s) (p : Proto) : (s.sess.map (sessW p)).sum = 0 :=
+  sum_map_zero _ _ (fun x hx => by simp [sessW, h x hx])
+
+theorem AllDead.udp_zero {s : St} (h : AllDead s) (hi : Inv2 noEx 0 s) : (s.tuns.map udpW).sum = 0 := by
+  apply sum_map_zero
+  intro tn htn
+  obtain ⟨j, hj, e⟩ := mem_getD default htn
+  have ok := hi j hj
+  rw [e] at ok
+  cases hst : tn.st with
+  | mux u =>
+    have := ok.1 u hst (fun hf => hf)
+    rw [h.not_alive] at this
+    cases this
+  | connecting n => exact udpW_of_connecting hst
+  | «open» a b => exact udpW_of_open hst
+  | closed => exact udpW_of_closed hst
+
+theorem gone_sessions_udp_zero {s : St} (he : Eq4 s) (hi : Inv2 noEx 0 s) (h : AllDead s) :
+    s.cells.s1 = 0 ∧ s.cells.s2 = 0 ∧ s.cells.udp = 0 := by
+  refine ⟨?_, ?_, ?_⟩
+  · rw [he.s1, h.sess_zero]; rfl
+  · rw [he.s2, h.sess_zero]; rfl
+  · rw [he.udp, h.udp_zero hi]; rfl
+
+theorem closeTun_getD_ne (s : St) (t : Nat) {j : Nat} (h : j ≠ t) :
+    (closeTun s t).tuns.getD j default = s.tuns.getD j default := by
+  cases hst : (s.tuns.getD t default).st with
+  | connecting n => rw [closeTun_of_connecting hst, updTun_getD, if_neg (fun hh => h hh.1)]
+  | «open» a b => rw [closeTun_of_open hst, updTun_getD, if_neg (fun hh => h hh.1)]
+  | mux u => rw [closeTun_of_mux hst, updTun_getD, if_neg (fun hh => h hh.1)]
+  | closed => rw [closeTun_of_closed hst]
+
+theorem closeTun_tcpW_self (s : St) {t : Nat} (ht : t < s.tuns.length) :
+    tcpW ((closeTun s t).tuns.getD t default) = 0 := by
+  cases hst : (s.tuns.getD t default).st with
+  | connecting n => rw [closeTun_of_connecting hst, updTun_getD, if_pos ⟨rfl, ht⟩]; rfl
+  | «open» a b => rw [closeTun_of_open hst, updTun_getD, if_pos ⟨rfl, ht⟩]; rfl
+  | mux u => rw [closeTun_of_mux hst, updTun_getD, if_pos ⟨rfl, ht⟩]; rfl
+  | closed => rw [closeTun_of_closed hst]; exact tcpW_of_closed hst
+
+/-- after the timeouts ran out, tunnel `t` holds no TCP socket -/
+theorem advBody_tcpW_self (c : Cfg) (ms : Nat) (s : St) {t : Nat} (ht : t < s.tuns.length)
+    (hi : 2 * c.tcpIdle ≤ ms) (hc : Inv2 noEx c.establish s) :
+    tcpW ((advBody c ms s t).tuns.getD t default) = 0 := by
+  have closed : tcpW ((endIfH1 (closeTun s t) (s.tuns.getD t default).sess).tuns.getD t default) = 0 :=
+    Nat.le_zero.mp (Nat.le_trans ((Pres.of_endIfH1 _ _).fr.tcpw t) (Nat.le_of_eq (closeTun_tcpW_self s ht)))
+  unfold advBody
+  simp only []
+  split
+  · next since h =>
+    rw [if_pos ((hc t ht).2 since h)]; exact closed
+  · rw [if_pos hi]; exact closed
+  · next u h =>
+    rw [stepMux_eq_upd, updTun_getD, if_pos ⟨rfl, ht⟩]; rfl
+  · next h => exact tcpW_of_closed h
+
+theorem adv_tcp_zero (c : Cfg) (ms : Nat) (s : St) (he : Eq4 s) (h2 : Inv2 noEx 0 s)
+    (hi : 2 * c.tcpIdle ≤ ms) (hest : c.establish ≤ ms) : (step c s (.adv ms)).cells.tcp = 0 := by
+  have e4 := (step_ok c s (.adv ms)).eq4 he
+  rw [e4.tcp]
+  suffices h : ((step c s (.adv ms)).tuns.map tcpW).sum = 0 by rw [h]; rfl
+  rw [step_adv_eq]
+  let s0 : St := { s with now := s.now + ms }
+  have hs0 : Inv2 noEx c.establish s0 := fun j hj =>
+    ⟨(h2 j hj).1, fun n hn => by have := (h2 j hj).2 n hn; show n + c.establish ≤ s.now + ms; omega⟩
+  have key := foldl_range_all (advBody c ms)
+    (fun s1 => Fr s0 s1 ∧ Inv2 noEx c.establish s1)
+    (fun j s1 => tcpW (s1.tuns.getD j default) = 0) s0.tuns.length
+    (fun s1 t ht p =>
+      have pr := Pres.of_advBody c ms s1 (t := t) (by rw [p.1.len]; exact ht)
+      ⟨p.1.trans pr.fr, pr.inv2 _ _ p.2⟩)
+    (fun s1 t j ht p r =>
+      have pr := Pres.of_advBody c ms s1 (t := t) (by rw [p.1.len]; exact ht)
+      Nat.le_zero.mp (Nat.le_trans (pr.fr.tcpw j) (Nat.le_of_eq r)))
+    (fun s1 t ht p => advBody_tcpW_self c ms s1 (by rw [p.1.len]; exact ht) hi p.2)
+    s0.tuns.length (Nat.le_refl _) s0 ⟨Fr.refl s0, hs0⟩
+  apply sum_map_zero
+  intro tn htn
+  obtain ⟨j, hj, e⟩ := mem_getD default htn
+  rw [← e]
+  exact key.2 j (by rw [← key.1.1.len]; exact hj)
+
+/-! ### the TCP gauge through `clientGone` / `endIfH1` -/
+
+theorem goneBody_tcp (i : Nat) (s : St) (t : Nat) : (goneBody i s t).cells.tcp = s.cells.tcp := by
+  unfold goneBody
+  simp only []
+  split
+  · split
+    · rfl
+    · next u h => rw [closeTun_of_mux h]; rfl
+    · rfl
+  · rfl
+
+theorem clientGone_tcp (s : St) (i : Nat) : (clientGone s i).cells.tcp = s.cells.tcp := by
+  rw [clientGone_eq]
+  exact foldl_inv (fun s' => s'.cells.tcp = s.cells.tcp) (fun _ => True) (goneBody i)
+    (fun s' t _ h => (goneBody_tcp i s' t).trans h) _ (fun _ _ => trivial) s rfl
+
+theorem endIfH1_tcp (s : St) (i : Nat) : (endIfH1 s i).cells.tcp = s.cells.tcp := by
+  rw [endIfH1_eq]; split
+  · rw [clientGone_tcp, endSession_tcp]
+  · rfl
+
+theorem step_dead_tcp (c : Cfg) (s : St) (i : Nat) :
+    (step c s (.tunOpen i .dead)).cells.tcp = s.cells.tcp := by
+  simp only [step]
+  split
+  · rfl
+  · rw [endIfH1_tcp]
+
+/-! ### a pending connect is left alone by everything but its own timeout -/
+
+theorem goneBody_conn (i : Nat) (s : St) (t : Nat) {j n : Nat}
+    (h : (s.tuns.getD j default).st = .connecting n) :
+    ((goneBody i s t).tuns.getD j default).st = .connecting n := by
+  by_cases hjt : j = t
+  · subst hjt
+    unfold goneBody
+    simp only []
+    split
+    · rw [h]; exact h
+    · exact h
+  · unfold goneBody
+    simp only []
+    split
+    · split
+      · rw [setTun_getD_ne _ _ _ hjt]; exact h
+      · rw [closeTun_getD_ne _ _ hjt]; exact h
+      · exact h
+    · exact h
+
+theorem clientGone_conn (s : St) (i : Nat) {j n : Nat} (h : (s.tuns.getD j default).st = .connecting n) :
+    ((clientGone s i).tuns.getD j default).st = .connecting n := by
+  rw [clientGone_eq]
+  exact foldl_inv (fun s' => (s'.tuns.getD j default).st = .connecting n) (fun _ => True) (goneBody i)
+    (fun s' t _ h' => goneBody_conn i s' t h') _ (fun _ _ => trivial) s h
+
+theorem endIfH1_conn (s : St) (i : Nat) {j n : Nat} (h : (s.tuns.getD j default).st = .connecting n) :
+    ((endIfH1 s i).tuns.getD j default).st = .connecting n := by
+  rw [endIfH1_eq]; split
+  · exact clientGone_conn _ i (by rw [endSession_tuns]; exact h)
+  · exact h
+
+theorem advBody_conn (c : Cfg) (ms : Nat) (s : St) {t j n : Nat} (hjt : j ≠ t)
+    (h : (s.tuns.getD j default).st = .connecting n) :
+    ((advBody c ms s t).tuns.getD j default).st = .connecting n := by
+  unfold advBody
+  simp only []
+  split
+  · split
+    · exact endIfH1_conn _ _ (by rw [closeTun_getD_ne _ _ hjt]; exact h)
+    · exact h
+  · split
+    · exact endIfH1_conn _ _ (by rw [closeTun_getD_ne _ _ hjt]; exact h)
+    · exact h
+  · rw [stepMux_eq_upd, updTun_getD, if_neg (fun hh => hjt hh.1)]; exact h
+  · exact h
+
+theorem advBody_of_conn_due (c : Cfg) (ms : Nat) (s : St) {t since : Nat}
+    (h : (s.tuns.getD t default).st = .connecting since) (hd : since + c.establish ≤ s.now) :
+    advBody c ms s t = endIfH1 (closeTun s t) (s.tuns.getD t default).sess := by
+  unfold advBody
+  simp only []
+  rw [h]
+  simp only []
+  rw [if_pos hd]
+
+theorem step_hang_eq (c : Cfg) (s : St) (i : Nat) (ha : aliveS s i = true)
+    (hn : ¬ (protoOf s i = .h1 ∧ s.tuns.any (·.sess = i) = true)) :
+    step c s (.tunOpen i .hang) =
+      { s with tuns := s.tuns ++ [{ sess := i, st := .connecting s.now }], cells := s.cells.tcpInc } := by
+  simp only [step]
+  rw [if_neg]
+  intro hcond
+  apply hn
+  simpa [ha] using hcond
+
+theorem hang_released (c : Cfg) (s : St) (i ms : Nat) (ha : aliveS s i = true)
+    (hn : ¬ (protoOf s i = .h1 ∧ s.tuns.any (·.sess = i) = true)) (he : c.establish ≤ ms) :
+    (step c s (.tunOpen i .hang)).cells.tcp = s.cells.tcp + 1 ∧
+    (step c (step c s (.tunOpen i .hang)) (.adv ms)).cells.tcp ≤ s.cells.tcp := by
+  rw [step_hang_eq c s i ha hn]
+  refine ⟨rfl, ?_⟩
+  rw [step_adv_eq]
+  simp only [List.length_append, List.length_cons, List.length_nil, Nat.zero_add, List.range_succ,
+    List.foldl_append, List.foldl_cons, List.foldl_nil]
+  generalize hs1 : (St.mk (s.now + ms) s.sess (s.tuns ++ [{ sess := i, st := TunState.connecting s.now }])
+    s.cells.tcpInc) = s1
+  have hlen : s1.tuns.length = s.tuns.length + 1 := by subst hs1; simp
+  have hnow : s1.now = s.now + ms := by subst hs1; rfl
+  have htcp : s1.cells.tcp = s.cells.tcp + 1 := by subst hs1; rfl
+  have hconn : (s1.tuns.getD s.tuns.length default).st = .connecting s.now := by
+    subst hs1; show ((s.tuns ++ [_]).getD s.tuns.length default).st = _
+    rw [getD_append_last]
+  generalize hs2 : (List.range s.tuns.length).foldl (advBody c ms) s1 = s2
+  have pr : Pres s1 s2 := by
+    rw [← hs2]
+    exact Pres.of_advFold c ms s1 _ (fun t ht => by rw [hlen]; have := List.mem_range.mp ht; omega)
+  have hconn2 : (s2.tuns.getD s.tuns.length default).st = .connecting s.now := by
+    rw [← hs2]
+    exact foldl_inv (fun s' => (s'.tuns.getD s.tuns.length default).st = .connecting s.now)
+      (fun t => t ≠ s.tuns.length) (advBody c ms)
+      (fun s' t ht h' => advBody_conn c ms s' (Ne.symm ht) h') (List.range s.tuns.length)
+      (fun t ht => by have := List.mem_range.mp ht; omega) s1 hconn
+  rw [advBody_of_conn_due c ms s2 hconn2 (by rw [pr.fr.now, hnow]; omega), endIfH1_tcp,
+    closeTun_of_connecting hconn2]
+  have := pr.fr.ctcp
+  simp only [updTun_cells, Cells.tcpDec_tcp]
+  omega
+
+theorem adv_allDead (c : Cfg) (ms : Nat) (s : St) (h : AllDead s) : AllDead (step c s (.adv ms)) := by
+  apply AllDead.of_not_alive
+  intro k
+  cases hk : aliveS (step c s (.adv ms)) k
+  · rfl
+  · rw [step_adv_eq] at hk
+    have h1 := (Pres.of_advFold c ms _ _ (fun t ht => by simpa using ht)).fr.alive k hk
+    have h0 : aliveS s k = false := h.not_alive k
+    have h2 : aliveS s k = true := h1
+    rw [h0] at h2; cases h2
+
+theorem gone_everything_zero (c : Cfg) (ms : Nat) (s : St) (he : Eq4 s) (h2 : Inv2 noEx 0 s)
+    (h : AllDead s) (hi : 2 * c.tcpIdle ≤ ms) (hest : c.establish ≤ ms) :
+    (step c s (.adv ms)).cells.s1 = 0 ∧ (step c s (.adv ms)).cells.s2 = 0 ∧
+    (step c s (.adv ms)).cells.tcp = 0 ∧ (step c s (.adv ms)).cells.udp = 0 := by
+  have ok := step_ok c s (.adv ms)
+  obtain ⟨a, b, d⟩ := gone_sessions_udp_zero (ok.eq4 he) (ok.inv2 h2) (adv_allDead c ms s h)
+  exact ⟨a, b, adv_tcp_zero c ms s he h2 hi hest, d⟩
+
 end TT.Metrics
